@@ -53,6 +53,10 @@ impl<'a> Tape<'a> {
     pub fn take(&mut self, n: usize) -> Vec<u8> {
         (0..n).map(|_| self.u8()).collect()
     }
+    /// Emplacer route bytes (0xF7 is reserved for the known-finding probe).
+    pub fn route(&mut self, n: usize) -> Vec<u8> {
+        (0..n).map(|_| self.u8()).map(|b| if b == 0xF7 { 0xF6 } else { b }).collect()
+    }
     pub fn consumed(&self) -> usize {
         self.pos
     }
